@@ -73,14 +73,25 @@ def normalize(raws, out_path):
             for line in open(rf):
                 raw = json.loads(line)
                 if raw["ev"] == "crashtick":
-                    ev = {"ev": "crashtick", "run": raw["run"], "i": raw["i"], "cls": raw["r"]["cls"],
-                          "op": "crashtick", "target": norm.norm_dump(raw["target"]),
-                          "dbs": norm.norm_dump(raw["dump"]), "images": []}
+                    dbn = [sn["db"] for sn in raw["pre"]["snaps"]]
+                    g.write(json.dumps({"ev": "crashbegin", "run": raw["run"], "i": raw["i"],
+                                        "target": norm.norm_dump(raw["target"]), "pre": raw["pre"],
+                                        "strs": raw["strs"]}) + "\n")
+                    n += 1
                     for im in raw["images"]:
                         images += 1
                         sites.add(im["site"])
-                        ev["images"].append({"n": im["n"], "site": im["site"], "load": im["load"],
-                                             "dump": norm.norm_dump(im.get("dump", {}))})
+                        bl = im.get("bload") or {}
+                        bload = {d: bl.get(d, {"st": "fail", "m": [], "id": 0, "strategy": 0}) for d in dbn}
+                        bload["#"] = {"st": "-", "m": [], "id": 0, "strategy": 0}
+                        g.write(json.dumps({"ev": "img", "run": raw["run"], "i": raw["i"], "n": im["n"],
+                                            "site": im["site"], "load": im["load"],
+                                            "dump": norm.norm_dump(im.get("dump", {})),
+                                            "patch": im["patch"], "bload": bload}) + "\n")
+                        n += 1
+                    ev = {"ev": "crashtick", "run": raw["run"], "i": raw["i"], "cls": raw["r"]["cls"],
+                          "op": "crashtick", "target": norm.norm_dump(raw["target"]),
+                          "dbs": norm.norm_dump(raw["dump"]), "images": []}
                     q = 0
                 else:
                     ev, q = norm.norm_event(raw, q)
@@ -93,9 +104,36 @@ def normalize(raws, out_path):
     return n, runs, images, sorted(sites)
 
 
+def model_part(tier, wd):
+    """Design level: NunDiskCrash (the write plan call by call, a kill between any two calls, the loader on what is
+    on disk) explored by TLC; every crash transition is printed with its verdict."""
+    import collections
+    import re
+    import tlc
+    out_cov = {}
+    for name, cfg in (("pinned", "MC_DiskCrash.cfg" if tier == "quick" else "MC_DiskCrash_deep.cfg"),
+                      ("ordered", "MC_DiskCrash_ordered.cfg")):
+        path = os.path.join(wd, "mc_diskcrash_%s.out" % name)
+        rc, out, secs = tlc.run_tlc("MC_DiskCrash.tla", cfg, workers=(8 if tier == "quick" else 14), timeout=1800,
+                                    heap="8g", stdout_path=path)
+        if "No error has been found" not in out:
+            raise common.ToolError("NunDiskCrash (%s) did not complete cleanly:\n%s" % (name, out[-3000:]))
+        gen, distinct = tlc.stats(out)
+        cuts = collections.Counter()
+        for m in re.finditer(r'<<"CUT", "([^"]*)", (TRUE|FALSE), "(\w+)", "(\w+)">>', out):
+            cuts[("reclaim" if m.group(2) == "TRUE" else "incremental", m.group(3))] += 1
+        out_cov[name] = {"cfg": cfg, "states": distinct, "transitions": gen, "seconds": round(secs, 1),
+                         "crash_transitions": {"%s/%s" % k: v for k, v in sorted(cuts.items())}}
+        os.remove(path)
+    if any(k.endswith("/unsafe") for k in out_cov["ordered"]["crash_transitions"]):
+        raise common.ToolError("the repaired write plan of NunDiskCrash has an unsafe cut")
+    return out_cov
+
+
 def run(tier, seed):
     res = common.Result(PROP, tier, seed, "fault_enumeration")
     wd = common.workdir(PROP)
+    design = model_part(tier, wd)
     devs, known = common.load_findings(PROP)
     cases = cases_for(tier)
     raws = common.run_cases_parallel("seq", cases, wd, procs=14, timeout=3000)
@@ -103,13 +141,29 @@ def run(tier, seed):
     n, runs, images, sites = normalize(raws, norm_path)
     out = common.validate_into(res, norm_path, "Trace_Crash.tla", "Trace_Crash.cfg", [], devs, "/dev/null",
                                wd, {c["id"]: {"id": c["id"], "meta": c["meta"]} for c in cases})
+    fol = out.get("follow", {})
+    n_img = sum(v[0] for v in fol.values())
+    n_fol = sum(v[1] for v in fol.values())
     res.coverage.update({
+        "states": design["pinned"]["states"] + design["ordered"]["states"],
+        "transitions": design["pinned"]["transitions"] + design["ordered"]["transitions"],
+        "design_level": {"module": "NunDiskCrash.tla: client operations, the snapshot one file-system call at a time, a kill "
+                                   "between any two calls, the loader on the files; invariants RestoreExact (C06 at byte level), "
+                                   "AddrsValid, CrashSafeOrKnown (pinned plan: unsafe cuts only inside the recorded windows), and "
+                                   "CrashSafe for the repaired plan (Variant = ordered)", "runs": design},
+        "byte_level_model": {"module": "NunDiskBytes.tla (write plan of storage_data_disk call by call, BufWriter rule, loader "
+                                       "on torn files), followed by Trace_Crash at every crash point",
+                             "interrupted_snapshots": len(fol), "images": n_img, "images_following_the_model": n_fol,
+                             "snapshots_followed_to_the_end": sum(1 for v in fol.values() if v[2])},
         "evaluations": images, "distinct_nontrivial": images,
         "rule": "dataset family {new short/large key, 12 new keys, update short->short, short->large, "
                 "large->short, remove, increment} (singly and combined) x {incremental, reclaiming} x "
                 "{1, 2 databases}, each on top of a completed snapshot; the interrupted snapshot is cut "
                 "after every file-system call on its path (crash_point hook: %d distinct sites); every "
-                "cut image is loaded by the real start-up code (child process) and judged by Trace_Crash. "
+                "cut image is loaded by the real start-up code (child process) and judged by Trace_Crash; "
+                "the image's files must be the files the byte-level model (NunDiskBytes) predicts for that cut and "
+                "the loaded contents what the modelled loader reads from them, and a failing image counts as the "
+                "recorded finding only while the run follows that model. "
                 "Every (case, cut) pair is a distinct image." % len(sites),
         "samples": [{"case": cases[0]["meta"], "sites": sites[:12]}],
         "crash_sites": sites, "cases": len(cases),
